@@ -3,6 +3,7 @@ package sim
 import (
 	"fmt"
 	"strconv"
+	"strings"
 
 	"github.com/onheap/eval"
 )
@@ -92,6 +93,9 @@ func (propC08) Gen(r *Rng, tier string) *World {
 			switch x := r.Intn(10); {
 			case x < 7:
 				s := Step{Op: "compile", Expr: r.Intn(np), Mask: r.Intn(16), Arg: []string{"none", "0", "1", "2", "3", "4", "5"}[r.Intn(7)]}
+				if r.P(0.08) {
+					s.Arg = "bad" + strconv.Itoa(r.Intn(5)) // a directive Compile must reject
+				}
 				cp := Plan{Kind: "compile"}
 				if r.P(0.3) {
 					ref := RefL2R(&w.Cfg, ops, w.Progs[s.Expr], &w.Calls[0])
@@ -245,6 +249,10 @@ type c08run struct {
 
 func c08src(w *World, s Step) string {
 	src := w.Progs[s.Expr%len(w.Progs)].Src()
+	if strings.HasPrefix(s.Arg, "bad") {
+		k, _ := strconv.Atoi(s.Arg[3:])
+		return []string{";;;; optimise: false\n", ";;;; reordering: maybe\n", ";;;;optimize\n", ";;;; constant_folding: true: false\n", ";;;; fast_evaluation: true, debug: true\n"}[k%5] + src
+	}
 	if s.Arg != "none" && s.Arg != "" {
 		style, _ := strconv.Atoi(s.Arg)
 		src = Directive(s.Mask, style) + src
